@@ -250,6 +250,39 @@ def run(case: dict, *, count_only: bool = False) -> Obs:
             env.spawn(f"force{idx}", cli.disconnect(force=True))
         elif act == "cancel":
             env.cancel("main")
+        elif act in ("reuse_start", "reuse_finish"):
+            # one connect per object: a second start/finish on the connection object in use must be
+            # refused with RuntimeError and change nothing.  (A second finish while the first one is
+            # still in SOCKET_OPENED is not probed: the guard cannot tell it from the first use.)
+            conn = env.conns[-1] if env.conns else None
+            stn = conn.connection_state.name if conn is not None else None
+            ok_probe = conn is not None and (
+                (act == "reuse_start" and stn != "INITIALIZED") or (act == "reuse_finish" and stn in ("HANDSHAKE_COMPLETE", "CONNECTED", "CLOSED"))
+            )
+            if not ok_probe:
+                obs.skipped.append(f"{idx}:{act}")
+                return
+            before = (len(env.tcp_calls), len(env.transports), stn)
+            env.log("reuse_probe", what=act, state=stn)
+
+            async def probe():
+                try:
+                    if act == "reuse_start":
+                        await conn.start_connection()
+                    else:
+                        await conn.finish_connection(login=login)
+                    out = "returned"
+                except RuntimeError:
+                    out = "RuntimeError"
+                except BaseException as e:  # noqa: BLE001
+                    out = type(e).__name__
+                after = (len(env.tcp_calls), len(env.transports))
+                if out != "RuntimeError":
+                    obs.reuse.append(f"conn{len(env.conns) - 1}:{stn}:{act[6:]}:{out}")
+                elif after != before[:2]:
+                    obs.reuse.append(f"conn{len(env.conns) - 1}:{stn}:{act[6:]}:opened-socket")
+
+            env.spawn(f"reuse{idx}", probe())
         elif tr is None or tr.closing:
             obs.skipped.append(f"{idx}:{act}")
         elif act == "eof":
@@ -608,7 +641,7 @@ def _event_strategy(max_iter: int):
         st.lists(st.sampled_from(["state", "state2", "ping", "discreq", "devinfo", "gettime"]), max_size=2),
     ).map(lambda t: t[0] + [t[1]] + t[2])
     act = st.one_of(
-        st.sampled_from(USER_ACTS).map(lambda a: {"do": a}),
+        st.sampled_from(USER_ACTS + USER_ACTS + ("reuse_start", "reuse_finish")).map(lambda a: {"do": a}),
         st.sampled_from(FAULT_ACTS).map(lambda a: {"do": a}),
         frames.map(lambda f: {"do": "chunk", "frames": f}),
         closing_chunk.map(lambda f: {"do": "chunk", "frames": f}),
@@ -662,7 +695,7 @@ def case_strategy(draw, tier: str = "quick", max_events: int = 4, min_events: in
 # enumerated sweeps (finite sub-domains)
 # ===========================================================================
 SWEEP_CAUSES: list[dict] = (
-    [{"do": a} for a in ("disconnect", "force", "cancel", "eof", "reset", "writefail_raise", "writefail_fatal")]
+    [{"do": a} for a in ("disconnect", "force", "cancel", "eof", "reset", "writefail_raise", "writefail_fatal", "reuse_start", "reuse_finish")]
     + [{"do": "chunk", "frames": f} for f in (["discreq"], ["garbage"], ["reqenc"], ["badproto"], ["badmac"], ["unknown"])]
     + [{"do": "chunk", "frames": f} for f in (["discreq", "state"], ["discreq", "ping"], ["discreq", "discreq"], ["garbage", "state"], ["state", "discreq", "state2"], ["badproto", "state"])]
 )
